@@ -9,6 +9,7 @@ import (
 	"regexp"
 	"sort"
 	"sync"
+	"testing/synctest"
 	"time"
 
 	ct "github.com/google/certificate-transparency-go"
@@ -123,6 +124,11 @@ type World struct {
 	lastAnswer    map[string]string // range digest -> kind of the last answer
 	seen          map[string]bool   // parked keys already logged
 	grewConsumed  bool
+	flatStart     int64 // first and last index of the most recent entry-bearing answer
+	flatEnd       int64
+	quiet         bool                 // no event-log lines (drain after cancel)
+	drained       bool                 // a cancelled scan has been run to its end (or given up on)
+	idleAdvances  int                  // settle phase: consecutive steps in which only the clock could be advanced
 	retained      []scanner.EntryBatch // batches kept by the consumer exactly as delivered
 }
 
@@ -239,6 +245,9 @@ func (w *World) Init(s *kernel.Sim) {
 	}
 	p.AllowStop = !w.mode.Scanner && t.Chance(1, 3) // the Scanner has no Stop
 	p.AllowCancel = t.Chance(1, 4)
+	if w.mode.Scanner {
+		p.AllowCancel = t.Chance(1, 3) // cancellation is the only way to end a scan early
+	}
 	p.ClockNoise = t.Chance(1, 3)
 	p.Retain = !w.mode.Scanner && t.Chance(1, 2)
 
@@ -309,7 +318,7 @@ func (w *World) Init(s *kernel.Sim) {
 // logf writes to the event log in stepped mode (driver goroutine only); timed
 // mode has no event log and many goroutines.
 func (w *World) logf(format string, a ...any) {
-	if !w.s.Timed {
+	if !w.s.Timed && !w.quiet {
 		w.s.Logf(format, a...)
 	}
 }
@@ -447,6 +456,9 @@ func (w *World) answerEntries(p *kernel.Parked, kind string, n int64) {
 		w.served[i]++
 	}
 	w.lastAnswer[p.Digest] = kind
+	if n > 0 {
+		w.flatStart, w.flatEnd = r[0], r[0]+n-1 // scanner runs: the batch now going through flatten
+	}
 	if kind == "short" {
 		w.s.Fault("short")
 		w.s.Probe("short.served")
@@ -569,12 +581,51 @@ func (w *World) doCancel(why string) {
 	w.cancelled = true
 	w.logf("cancel context (%s)", why)
 	w.cancel()
+	if w.mode.Scanner {
+		w.drainAfterCancel()
+	}
+}
+
+// drainAfterCancel runs a cancelled scan to its end within one driver step: every callback still
+// arriving is released at once (and judged), the clock is advanced while nothing is pending, until
+// ScanLog has returned or 10 min of idle fake time have passed. It is one step with one log line
+// because what happens between a cancelled context and the matcher workers' exit is not ordered by
+// any seam (a worker that finds both its context done and an entry waiting may take either), so a
+// step-by-step record of it would not be a function of the tape. Whether the scan *returns* is.
+func (w *World) drainAfterCancel() {
+	s := w.s
+	w.quiet = true
+	idle := 0
+	for rounds := 0; idle < 40 && rounds < 5000; rounds++ {
+		synctest.Wait()
+		w.AfterStep(s)
+		if s.Violated() || w.isDone() {
+			break
+		}
+		ps := s.ParkedCalls()
+		if len(ps) == 0 {
+			time.Sleep(15 * time.Second)
+			idle++
+			continue
+		}
+		for _, p := range ps {
+			d := kernel.Decision{Kind: "ok"}
+			if p.Party != "cb" {
+				d.Kind = "shutdown" // not expected: log calls end by themselves when their context is cancelled
+			}
+			s.Release(p, d)
+		}
+	}
+	w.idleAdvances = idle
+	w.quiet = false
+	w.drained = true
+	w.logf("drained after cancel: returned=%v", w.isDone())
 }
 
 // Options implements kernel.World. Order: honest answers first (a zero tape
 // takes the first), then clock advances, then faults, then events.
 func (w *World) Options(s *kernel.Sim) []kernel.Option {
-	if w.isDone() {
+	if w.isDone() || w.drained {
 		return nil
 	}
 	parked := s.ParkedCalls()
@@ -618,6 +669,7 @@ func (w *World) Options(s *kernel.Sim) []kernel.Option {
 	if !s.FaultsOn() {
 		// settle: honest answers; the clock when nothing else can move; a continuous run is ended once it has caught up
 		if len(oks) > 0 {
+			w.idleAdvances = 0
 			return oks
 		}
 		if w.prof.Continuous && !w.cancelled && !w.stopEffective && w.caughtUp(len(parked)) {
@@ -635,6 +687,13 @@ func (w *World) Options(s *kernel.Sim) []kernel.Option {
 				}
 			}}}
 		}
+		// nothing is pending and the run has not returned: only timers can move it. The longest wait the
+		// code under test has is a back-off of at most 60 s (plus updateSTH's 45 s window); after 10 min of
+		// idle fake time nothing will ever happen and Finish reports it.
+		if w.idleAdvances >= 40 {
+			return nil
+		}
+		w.idleAdvances++
 		return []kernel.Option{s.AdvanceOpt(15*time.Second, 1)}
 	}
 	opts := oks
@@ -663,7 +722,45 @@ func (w *World) Options(s *kernel.Sim) []kernel.Option {
 		opts = append(opts, kernel.Option{Key: "stop", Weight: 1, Apply: func() { w.doStop("event") }})
 	}
 	if w.prof.AllowCancel && !w.cancelled {
-		opts = append(opts, kernel.Option{Key: "cancel", Weight: 1, Apply: func() { w.doCancel("event") }})
+		// all matcher workers busy in callbacks: a fetch worker may be blocked inside flatten with the rest
+		// of its batch - the state in which a cancelled scan has to unwind both sides
+		busy := w.mode.Scanner && cbParked >= w.prof.NumWorkers
+		wt := 1
+		if busy {
+			// Entries of the batch in flight that no matcher worker has received yet: the flatten gate admits
+			// one batch at a time and every worker is parked in a callback, so it is exactly what lies
+			// beyond the furthest parked callback of that batch.
+			furthest := int64(-1)
+			for _, p := range parked {
+				var idx int64
+				if p.Party == "cb" {
+					fmt.Sscanf(p.Digest, "%d", &idx)
+					if idx >= w.flatStart && idx <= w.flatEnd && idx > furthest {
+						furthest = idx
+					}
+				}
+			}
+			left := int64(1) // unknown: treat as "few"
+			if furthest >= 0 {
+				left = w.flatEnd - furthest
+			}
+			// With few entries left, whether the cancelled workers still drain them before they leave is
+			// decided by nothing the driver controls; such a cancel is left to the timed spec. Either
+			// nothing is left, or so much that the workers cannot take it all.
+			switch {
+			case left == 0:
+			case left >= int64(6+2*w.prof.NumWorkers):
+				wt = 6
+			default:
+				wt = 0
+			}
+		}
+		opts = append(opts, kernel.Option{Key: "cancel", Weight: wt, Apply: func() {
+			if busy {
+				s.Probe("cancel.matchers-busy")
+			}
+			w.doCancel("event")
+		}})
 	}
 	return opts
 }
@@ -999,12 +1096,12 @@ func (w *World) Finish(s *kernel.Sim) {
 	if w.isDone() {
 		return
 	}
-	state := "range-not-exhausted"
+	state := "no-return-range-not-exhausted"
 	switch {
 	case w.cancelled:
-		state = "after-cancel"
+		state = "no-return-after-cancel"
 	case w.stopEffective:
-		state = "after-stop"
+		state = "no-return-after-stop"
 	case w.prof.Continuous:
 		state = "continuous-not-caught-up"
 		// an index that was never fetched although later ones were: the run skipped it and will never catch up
@@ -1023,8 +1120,8 @@ func (w *World) Finish(s *kernel.Sim) {
 			return
 		}
 	}
-	s.Violate("liveness", w.modeName()+"|"+state, "with an honest log since the start of the settle phase the run has not returned after %d steps (%v of fake time): delivered %d, published %d, parked %d",
-		s.Step(), s.Now(), w.nDelivered, w.size, len(s.ParkedCalls()))
+	s.Violate("liveness", w.modeName()+"|"+state, "with an honest log since the start of the settle phase the run has not returned after %d steps (%v of fake time; the clock was advanced %d times in a row by 15 s with nothing pending): published %d, parked %d",
+		s.Step(), s.Now(), w.idleAdvances, w.size, len(s.ParkedCalls()))
 }
 
 // Shutdown implements kernel.World.
